@@ -299,20 +299,25 @@ def patch_boundary_edges(faces):
         return None
     pairs = [(fs[0], x) for fs in byedge.values() for x in fs[1:]]
     want = []
+    clean = True
     for comp in components(len(faces), pairs):
         cnt = {}
         for i in comp:
             a, b, cc = faces[i]
             for e in ((a, b), (b, cc), (cc, a)):
                 cnt[ukey(*e)] = cnt.get(ukey(*e), 0) + 1
+        mine = []
         for i in comp:
             a, b, cc = faces[i]
-            want += [e for e in ((a, b), (b, cc), (cc, a)) if cnt[ukey(*e)] == 1]
-    outs, ins = {}, {}
-    for e in want:
-        outs[e[0]] = outs.get(e[0], 0) + 1
-        ins[e[1]] = ins.get(e[1], 0) + 1
-    return want, all(v == 1 for v in outs.values()) and all(v == 1 for v in ins.values())
+            mine += [e for e in ((a, b), (b, cc), (cc, a)) if cnt[ukey(*e)] == 1]
+        # patch by patch: two patches that touch at a vertex each have their own loops through it
+        outs, ins = {}, {}
+        for e in mine:
+            outs[e[0]] = outs.get(e[0], 0) + 1
+            ins[e[1]] = ins.get(e[1], 0) + 1
+        clean = clean and all(v == 1 for v in outs.values()) and all(v == 1 for v in ins.values())
+        want += mine
+    return want, clean
 
 
 def coq_check(c, r):
@@ -431,36 +436,14 @@ def oracle(c, r):
                 return
     elif k == "c12.patch_boundaries":
         faces = [tuple(f) for f in c["faces"]]
-        byedge = {}
-        for i, (a, b, cc) in enumerate(faces):
-            for e in ((a, b), (b, cc), (cc, a)):
-                byedge.setdefault(ukey(*e), []).append(i)
-        if any(len(v) > 2 for v in byedge.values()):
+        info = patch_boundary_edges(faces)
+        if info is None:
             return      # "will not work on non-manifold meshes"
-        pairs = [(fs[0], x) for fs in byedge.values() for x in fs[1:]]
-        comps = components(len(faces), pairs)
-        # the boundary of a patch: the edges that one face of the patch has and no other, in the direction that face runs them
-        want = []
-        for comp in comps:
-            cnt = {}
-            for i in comp:
-                a, b, cc = faces[i]
-                for e in ((a, b), (b, cc), (cc, a)):
-                    cnt[ukey(*e)] = cnt.get(ukey(*e), 0) + 1
-            for i in comp:
-                a, b, cc = faces[i]
-                want += [e for e in ((a, b), (b, cc), (cc, a)) if cnt[ukey(*e)] == 1]
-        outs = {}
-        for e in want:
-            outs[e[0]] = outs.get(e[0], 0) + 1
-        ins = {}
-        for e in want:
-            ins[e[1]] = ins.get(e[1], 0) + 1
-        clean = all(v == 1 for v in outs.values()) and all(v == 1 for v in ins.values())      # every boundary vertex is entered once and left once
+        want, clean = info      # clean: within every patch each boundary vertex is entered once and left once
         for run in r["runs"]:
             if run.get("err"):
                 if clean:
-                    yield ("patch-boundary", "get_patch_boundary_points failed on %r although every boundary vertex has one way in and one way out" % (faces,))
+                    yield ("patch-boundary", "get_patch_boundary_points failed on %r although within every patch each boundary vertex has one way in and one way out" % (faces,))
                     return
                 continue
             got = []
